@@ -43,12 +43,13 @@ def run(R):
             o = R.rng.randrange(3); keyed[o] = False
             ops2.append("O %d %s %d %d" % (o, R.rng.choice("frpz"), R.rng.randrange(16), R.rng.randrange(1 << 30)))
         elif r < 0.2:
-            k = R.rng.choice(keys); ops2.append("SK %s %d" % (hx(k), R.rng.randrange(0, 50)))
+            k = R.rng.choice(keys); ops2.append("SK %s %d%s" % (hx(k), R.rng.randrange(0, 50), R.rng.choice(["", "", " T"])))
         elif r < 0.4:
             o = R.rng.randrange(3); keyed[o] = True
             k = R.rng.choice(keys); ops2.append("SKR %d %s %d" % (o, hx(k), R.rng.randrange(0, 50)))
         elif r < 0.6:
-            ops2.append("EN %s %d %d" % (hx(R.rng.choice(blocks)), R.rng.randrange(2), R.rng.randrange(0, 50)))
+            # "T": the call runs on a fresh thread - the static key is process-wide, whichever thread set it
+            ops2.append("EN %s %d %d%s" % (hx(R.rng.choice(blocks)), R.rng.randrange(2), R.rng.randrange(0, 50), R.rng.choice(["", "", " T"])))
         elif r < 0.8:
             o = R.rng.randrange(3)
             if keyed.get(o) is False:
@@ -60,7 +61,7 @@ def run(R):
         else:
             ops2.append(CS.crypt_op("r", R.rng.randrange(3), b"pw", b"$1$bad:salt"))
     il2 = R.run_so(ops2)
-    ml2 = R.run_model(ops2)
+    ml2 = R.run_model([o[:-2] if o.endswith(" T") else o for o in ops2])      # the model has one static key, whichever thread
     def proj2(op, a, b):
         if op.startswith("C "): return CS.proj_crypt(op, a, b)
         return None if a == b else "differs"
